@@ -3,8 +3,6 @@ package hist
 import (
 	"bytes"
 	"crypto/sha256"
-	"encoding/base64"
-	"encoding/hex"
 	"encoding/json"
 	"fmt"
 	"strings"
@@ -208,43 +206,7 @@ func (h *hist) rowOfCipher(ch [32]byte) string {
 }
 
 // forms returns the encodings of b searched for in artefacts.
-func forms(b []byte) [][]byte {
-	b64 := base64.StdEncoding.EncodeToString(b)
-	b64 = strings.TrimRight(b64, "=")
-	if len(b64) > 2 {
-		b64 = b64[:len(b64)-1] // the last sextet depends on what follows
-	}
-	hx := hex.EncodeToString(b)
-	out := [][]byte{b, []byte(b64), []byte(hx), []byte(strings.ToUpper(hx))}
-	// textual renderings a format verb or a debugger-style dump produces; if the value leaked in such a form, so did
-	// its first 12 bytes
-	p := b
-	if len(p) > 12 {
-		p = p[:12]
-	}
-	if len(p) >= 8 {
-		u := strings.NewReplacer("+", "-", "/", "_").Replace(b64)
-		if u != b64 {
-			out = append(out, []byte(u))
-		}
-		var dec, decComma, hexSp, hexColon, goSyn []string
-		for _, c := range p {
-			dec = append(dec, fmt.Sprintf("%d", c))
-			hexSp = append(hexSp, fmt.Sprintf("%02x", c))
-			goSyn = append(goSyn, fmt.Sprintf("0x%x", c))
-		}
-		decComma, hexColon = dec, hexSp
-		out = append(out,
-			[]byte(strings.Join(dec, " ")),       // %v / %d of a []byte
-			[]byte(strings.Join(decComma, ",")),  // JSON array of numbers
-			[]byte(strings.Join(decComma, ", ")), // pretty-printed
-			[]byte(strings.Join(hexSp, " ")),     // % x
-			[]byte(strings.Join(hexColon, ":")),
-			[]byte(strings.Join(goSyn, ", ")), // %#v
-		)
-	}
-	return out
-}
+func forms(b []byte) [][]byte { return probe.Forms(b) }
 
 func (st *c03state) formsOf(k []byte) [][]byte {
 	if st.formCache == nil {
